@@ -26,6 +26,20 @@ CONFIG = dict(
              'item lists of 1, 2, 10, 30 items (thorough: 30 items x 3000 commits); linear histories of 98..200 and 127..513 commits (plan positions and '
              'commit indices around 100, 2^7, 2^8, 2^9). Runs whose plan has more than 450 actions are judged by the extracted oracles only (log_ok over the '
              'complete call log at the end, summary_ok, errors-abort): the extracted interpreter is cubic in the plan length. '
+             'Added after the third round of seeded changes (semantic corners; harness/cmd/c14/reuse.go): '
+             'special = recording items publish special-but-legal VALUES for declared entities (field special = (item entity commit-index-or--1 code)): the '
+             'untyped nil interface (1), typed nil slice / map / pointer (2-4), "" (5), int 0 (6), false (7), an empty slice (8), uint64 0 (9) - every value x 4 '
+             'fixed pipelines x (every step, first step, merge replay) on a diamond, and random pipelines / histories / injections; a value is written '
+             '3000000000+code in deps / out, the downstream digest depends on it; Run must store it and go on (only an ABSENT key is a missing output), '
+             'and a run that aborts although no call failed and nothing is missing is a property failure by itself. '
+             'reuse-sides / -mid / -sub / -grow = ONE Pipeline object and the SAME item instances run on several commit selections of one repository (field '
+             'runs = (run mode dist pa dump (inject ..) (sel ids)) per run, obs = one (run ...) block per run): each side of a merge of equally long arms, the '
+             'same window with another commit dropped (same length, same first and last commit), sub-histories, a history that grows; mode 0 = '
+             'Initialize again, 1 = no Initialize (the harness resets the counters of the original instances), 3 = Initialize twice; a run may carry an '
+             'injected failure, so that the next run re-uses a Pipeline whose Run was aborted; in half of the later runs DumpPlan is off (a dump forces '
+             're-planning in plausible caches) and the executed plan is read from what PrintActions prints. Every run is judged like a single fresh run '
+             '(model = fresh-instance twin: call log and result equal; oracles on the observed log) and every commit of the executed plan must be one of '
+             'the commits handed to that run. '
              'Non-trivial = at least 2 items and at least 2 commit '
              'steps in the executed plan; distinct = distinct (distance, items, injection, options, commits).',
         exhaustive_note='every parent assignment (each commit chooses any subset of the earlier ones: several roots, octopus and redundant merges, '
@@ -44,7 +58,7 @@ CONFIG = dict(
             'hand-written Gallina model coq/theories/Pipeline/RunModel.v of Pipeline.Run, cloneItems, mergeItems, getMasterBranch, '
             'ForkSamePipelineItem, ForkCopyPipelineItem, tied to the code by the replay of every harness case (complete call log and result)',
             'the recording items of harness/cmd/c14 and their Gallina twin rec_sem; the behaviours added with the attribute streams (undeclared '
-            'extra keys, nil result map, error at a merge replay) are an OCaml wrapper around the extracted rec_sem in ocaml/c14/driver.ml (the '
+            'extra keys, nil result map, error at a merge replay, special values of declared entities) are an OCaml wrapper around the extracted rec_sem in ocaml/c14/driver.ml (the '
             'interpreter is the extracted run, the theorems hold for every item behaviour)',
             'verif hook internal/core/verif_c14.go (redirects the sink of the plan dump so that the plan Run executed is observed) and '
             'verifapi/c14/c14.go; the existing verifapi planner exports (InsertHibernateBoot) and Pipeline.VerifItems',
